@@ -352,7 +352,7 @@ pub fn run(tier: Tier, replay_file: Option<&str>) -> i32 {
             sets.push(vec![Pol::simple("p0", if i % 3 == 2 { Effect::Forbid } else { Effect::Permit }, Some(e.clone()))]);
         }
         let n = bodies.len();
-        let stride = tier.pick(7, 3);
+        let stride = tier.pick(4, 1);
         for i in (0..n).step_by(stride) {
             for d in [1usize, 11, 29] {
                 let j = (i + d) % n;
